@@ -1,9 +1,165 @@
 import Pandora.Drv.Util
+import Pandora.Model.C07
+import Pandora.Spec.C07
 
+/-!
+Line driver of C07.  Input = what harness/cmd/c07 generated (format, limit, file bytes, and for the
+well-formed stream the entries + layout the file was rendered from), impl = the canonical observation of the
+real provider.  Output: the model's observation for the same file bytes (`*` when the file leaves the class where
+the model knows net/url or the allocator) and the Spec verdict on the implementation's observation.
+-/
 namespace Pandora.Drv.C07
-open Pandora.Drv
+open Pandora.Drv Pandora.Model.C07 Pandora.Spec.C07
 
-/-- stub: replaced when the property's model driver is written -/
-def handle : Handler := fun _ _ => ("-", "skip:not-built")
+def hexB (s : String) : Option Bytes := parseHex s
+
+def parseItem (s : String) : Option Item :=
+  match s.splitOn ":" with
+  | ["h", k, v] => do pure (.hdr (← hexB k) (← hexB v))
+  | ["r", u, t, b] => do pure (.req (← hexB u) (← hexB t) (← hexB b))
+  | ["f", t, fr] => do pure (.frame (← hexB t) (← hexB fr))
+  | _ => none
+
+/-- "<n>/<pad,pad,…>" -/
+def parseBlankList (s : String) : Option (List Bytes) :=
+  match s.splitOn "/" with
+  | [n, ps] => do
+    let n ← n.toNat?
+    if n == 0 then pure [] else
+    let l ← (ps.splitOn ",").mapM hexB
+    if l.length == n then pure l else none
+  | _ => none
+
+def parseItemLay (s : String) : Option ItemLay :=
+  match s.splitOn ":" with
+  | [pre, post, i1, i2, i3, i4, bl] => do
+    pure { pre := ← hexB pre, post := ← hexB post, i1 := ← hexB i1, i2 := ← hexB i2, i3 := ← hexB i3, i4 := ← hexB i4,
+           blanks := ← parseBlankList bl }
+  | _ => none
+
+def parseLayout (kv : List (String × String)) : Option Layout := do
+  let lead ← parseBlankList (getS kv "lead")
+  let per ← (splitList (getS kv "per") ";").mapM parseItemLay
+  let trail ← hexB (getS kv "trail")
+  pure { lead := lead, per := per, finalNL := getS kv "fnl" == "1", trail := trail }
+
+def parseFmt : String → Option Fmt
+  | "uri" => some .uri | "uripost" => some .uripost | "raw" => some .raw | _ => none
+
+/-- raw: frame hex ↦ canonical text of `http.ReadRequest(frame)` ("!" = ReadRequest fails), computed by the harness -/
+def parseTable (s : String) : List (String × String) :=
+  (splitList s ";").filterMap fun e =>
+    match e.splitOn ">" with
+    | [f, c] => some (f, c)
+    | _ => none
+
+def stopName : Stop → String
+  | .eof => "ok"
+  | .err e => e.name
+  | .unknown => "?"
+
+def obsLine (err : String) (reqs : List String) : String :=
+  s!"err={err} n={reqs.length} reqs={";".intercalate reqs}"
+
+/-- model observation of a list of decoded ammo: `none` when some URL is outside the modelled class -/
+def ammoObs (res : List Ammo × Stop) : Option String := do
+  if res.2 == .unknown then none
+  let reqs ← res.1.mapM buildReq
+  pure (obsLine (stopName res.2) (reqs.map reqStr))
+
+/-- raw: requests are delivered until the first frame that `http.ReadRequest` rejects (Acquire returns false) -/
+def rawObs (tbl : List (String × String)) (res : List RawAmmo × Stop) : Option String := do
+  if res.2 == .unknown then none
+  let rec go : List RawAmmo → List String → Option (List String × Bool)
+    | [], acc => some (acc.reverse, false)
+    | a :: r, acc =>
+      match lookup tbl (hex a.frame) with
+      | none => none
+      | some "!" => some (acc.reverse, true)
+      | some c => go r ((c ++ ",t=" ++ hex a.tag) :: acc)
+  let (reqs, buildErr) ← go res.1 []
+  pure (obsLine (if buildErr then "build" else stopName res.2) reqs)
+
+def parseObs (impl : String) : Option (String × List String) :=
+  let kv := parseKV impl
+  match lookup kv "err", lookup kv "reqs" with
+  | some e, some r => some (e, splitList r ";")
+  | _, _ => none
+
+/-- all raw lines of the file fit a bufio.Scanner token -/
+def linesFit (file : Bytes) : Bool := (splitOn LF file).all fun l => l.length < maxTok
+
+def parseEntity (s : String) : Option Entity :=
+  match s.splitOn ":" with
+  | [h, m, u, t, b, hs] => do
+    let hdrs ← (splitList hs "+").mapM fun kv =>
+      match kv.splitOn "=" with
+      | [k, v] => do pure ((← hexB k), (← hexB v))
+      | _ => none
+    pure { host := ← hexB h, method := ← hexB m, uri := ← hexB u, tag := ← hexB t, body := ← hexB b, headers := hdrs }
+  | _ => none
+
+def entityKnown (e : Entity) : Bool := uriOK e.uri && (e.host.isEmpty || hostOK e.host) && validMethod e.method
+
+def handleFile (f : Fmt) (kv : List (String × String)) (impl : String) : String × String :=
+  let k := (getN? kv "k").getD 1
+  let pre := getS kv "pre" == "1"
+  match hexB (getS kv "file") with
+  | none => ("-", "fail:driver:bad file hex")
+  | some file =>
+    let tbl := parseTable (getS kv "tbl")
+    let mobs : Option String :=
+      match f with
+      | .uri => ammoObs (uriDeliver file k pre)
+      | .uripost => ammoObs (uripostDeliver true file k pre)
+      | .raw => rawObs tbl (rawDeliver file k pre)
+    let m := mobs.getD "*"
+    match lookup kv "items" with
+    | none => (m, if mobs.isSome then "skip:malformed" else "skip:outside-model")
+    | some its =>
+      match (splitList its ";").mapM parseItem, parseLayout kv, parseObs impl with
+      | some items, some lay, some (ierr, ireqs) =>
+        if render f items lay != file then (m, "fail:driver:the Lean renderer disagrees with the harness renderer")
+        else if !(itemsOK f items && layoutOK lay && (f != .uri || linesFit file)) then (m, "skip:not-wellformed")
+        else if !targetsKnown items then (m, "skip:url-class")
+        else
+          match f with
+          | .raw =>
+            let fr := expFrames items
+            let strs := fr.mapM fun ft =>
+              match lookup tbl (hex ft.1) with
+              | some "!" => none
+              | some c => some (c ++ ",t=" ++ hex ft.2)
+              | none => none
+            match strs with
+            | none => (m, "skip:frame-not-a-request")
+            | some pass => (m, judge (expected pass k) (expectedErr pass) ireqs ierr)
+          | _ =>
+            let pass := (expReqs f [] items).map reqStr
+            (m, judge (expected pass k) (expectedErr pass) ireqs ierr)
+      | _, _, none => (m, s!"fail:crash:unparsable observation {impl.take 80}")
+      | _, _, _ => (m, "fail:driver:unparsable items/layout")
+
+def handleJson (kv : List (String × String)) (impl : String) : String × String :=
+  let k := (getN? kv "k").getD 1
+  let pre := getS kv "pre" == "1"
+  match (splitList (getS kv "ents") ";").mapM parseEntity, parseObs impl with
+  | some ents, some (ierr, ireqs) =>
+    let m := (ammoObs (jsonDeliver (getS kv "mode" == "array") ents k pre)).getD "*"
+    if !ents.all entityKnown then (m, "skip:outside-model")
+    else
+      let pass := ents.map fun e => reqStr (entityReq e.host e.method e.uri e.tag e.body e.headers)
+      (m, judge (expected pass k) (expectedErr pass) ireqs ierr)
+  | none, _ => ("-", "fail:driver:unparsable entities")
+  | _, none => ("-", s!"fail:crash:unparsable observation {impl.take 80}")
+
+def handle : Handler := fun input impl =>
+  let kv := parseKV input
+  match getS kv "fmt" with
+  | "json" => handleJson kv impl
+  | fs =>
+    match parseFmt fs with
+    | some f => handleFile f kv impl
+    | none => ("-", "fail:driver:unknown format")
 
 end Pandora.Drv.C07
